@@ -39,7 +39,7 @@ Tags(conds) == { c[2] : c \in { x \in conds : x[1] } }
 NoCfg == [secrets |-> <<>>, users |-> <<>>, deny |-> <<>>, allow |-> <<>>]
 NoReq == [c |-> -1, sid |-> <<>>, hdr |-> [maj |-> 0, min |-> 0, ty |-> 0, seq |-> 0, fl |-> 0, sid |-> <<>>, len |-> <<>>], b |-> <<>>, l |-> 0]
 ObsInit == [req |-> NoReq, pend |-> FALSE, wr |-> 0, inv |-> 0, sinks |-> <<>>,
-            t |-> << >>, reps |-> << >>, nfeed |-> << >>, iso |-> {}, bad |-> {}, noisy |-> FALSE, overlap |-> FALSE]
+            t |-> << >>, reps |-> << >>, nfeed |-> << >>, iso |-> {}, bad |-> {}, noisy |-> FALSE, overlap |-> FALSE, acctpend |-> FALSE, acctdone |-> FALSE, acctb |-> <<>>]
 EmptyFn == [x \in {} |-> 0]
 
 \* the secret configuration a connection is bound to (0 = refused), per the Admission oracle
@@ -97,7 +97,10 @@ ObsWr(e) ==
           << o.pend /\ kind = "AuthenReply" /\ status = 1 /\ ~amb /\ ~may, "C10" >>,
           << o.pend /\ kind = "AuthenReply" /\ d.ok /\ ~amb /\ may /\ status # 1, "C10" >>,
           \* C12
-          << o.pend /\ kind = "AcctReply" /\ status = 1 /\ ~(Len(o.sinks) = 1 /\ RecordMatches(o.sinks[1], r.b)), "C12" >>,
+          \* an acknowledged record has reached the sink exactly once before the reply (log-backed accounter); the syslog
+          \* accounter's record travels over a socket and is matched when it arrives (acctpend)
+          << o.pend /\ kind = "AcctReply" /\ status = 1 /\ Len(o.sinks) > 1, "C12" >>,
+          << o.pend /\ kind = "AcctReply" /\ status = 1 /\ Len(o.sinks) = 1 /\ ~RecordMatches(o.sinks[1], r.b), "C12" >>,
           << o.pend /\ r.hdr.ty = 3 /\ t.stage = "idle" /\ d.ok /\ ScopeIdx(r.c) > 0 /\ AcctMustError(scope, r.b) /\ status # 2, "C12" >>,
           \* C11
           << o.pend /\ r.hdr.ty = 2 /\ t.stage = "idle" /\ d.ok /\ ScopeIdx(r.c) > 0
@@ -108,6 +111,8 @@ ObsWr(e) ==
       THEN \* written by the reader, not by a handler: the key-mismatch error packet (judged by C19 in the server family)
            [o EXCEPT !.wr = @ + 1, !.reps = Put(@, key, Append(Get(@, key, <<>>), b))]
       ELSE [o EXCEPT !.wr = @ + 1, !.bad = @ \cup new,
+                !.acctpend = (o.pend /\ kind = "AcctReply" /\ status = 1 /\ Len(o.sinks) = 0),
+                !.acctb = r.b,
                 !.t = IF d.ok /\ kind = "AuthenReply" THEN Put(@, key, TNext(t, r.hdr, r.b, status)) ELSE @,
                 !.reps = Put(@, key, Append(Get(@, key, <<>>), b))]
 
@@ -125,7 +130,7 @@ ModelWrOK(e) ==
       /\ (kind = "AuthenReply" => (x.anyst \/ d.v.flags = x.fl))
       /\ (x.anymsg \/ d.v.msg = x.msg)
       /\ (kind # "AuthorReply" => d.v.data = <<>>)
-      /\ (x.sink <=> Len(o.sinks) = 1)
+      /\ (IF x.sink /\ x.via # "syslog" THEN Len(o.sinks) = 1 ELSE Len(o.sinks) = 0)
 ModelNext(e) == LET r == o.req IN Handle(cfg, ScopeName(r.c), Get(ms, << r.c, r.sid >>, NoH), r.hdr, r.b).nx
 
 \* ---- request settled (server waits for more input or closed the connection) ----
@@ -176,8 +181,9 @@ Next ==
                 conns' = [conns EXCEPT ![e.c].k = IF e.ok /\ ks # {} THEN CHOOSE k \in ks : \A j \in ks : k <= j ELSE 0]
              /\ UNCHANGED << sc, cfg, ms, div >>
         [] e.e = "feed" ->
+             /\ (IF o.acctpend /\ ~o.noisy THEN PrintT(<< "PV", {"C12"}, sc, l, "norecord" >>) ELSE TRUE)
              /\ LET h == DecHeader(e.h).v  key == << e.c, h.sid >> IN
-                o' = [o EXCEPT !.req = [c |-> e.c, sid |-> h.sid, hdr |-> h, b |-> ClrTab[l], l |-> l],
+                o' = [o EXCEPT !.acctpend = FALSE, !.acctdone = FALSE, !.req = [c |-> e.c, sid |-> h.sid, hdr |-> h, b |-> ClrTab[l], l |-> l],
                                !.pend = TRUE, !.wr = 0, !.inv = 0, !.sinks = <<>>,
                                !.nfeed = Put(@, key, Get(@, key, 0) + 1)]
              /\ UNCHANGED << sc, cfg, conns, ms, div >>
@@ -196,7 +202,18 @@ Next ==
              /\ o' = [o EXCEPT !.noisy = TRUE, !.pend = FALSE]
              /\ UNCHANGED << sc, cfg, conns, ms, div >>
         [] e.e = "sink" ->
-             /\ o' = [o EXCEPT !.sinks = Append(@, [ok |-> e.ok, dec |-> e.dec])]
+             \* log-backed accounter: the record is written synchronously, inside the request; syslog accounter: the record
+             \* arrives over a socket after the reply - matched when it arrives (an error reply may also have been preceded
+             \* by a record: the property only constrains acknowledged ones)
+             /\ LET d == [ok |-> e.ok, dec |-> e.dec]
+                    sys == e.via = "syslog"
+                    late == sys /\ o.acctpend
+                    new == Tags({ << late /\ ~RecordMatches(d, o.acctb), "C12" >>,
+                                  << sys /\ o.acctdone, "C12" >>,                                \* a second record for an acknowledged request
+                                  << ~sys /\ ~o.pend /\ ~o.noisy, "C12" >> })                    \* a record nobody asked for
+                IN /\ o' = [o EXCEPT !.sinks = IF sys THEN @ ELSE Append(@, d), !.acctpend = IF late THEN FALSE ELSE @,
+                                     !.acctdone = IF late THEN TRUE ELSE @, !.bad = @ \cup new]
+                   /\ Report(new \ o.bad, e)
              /\ UNCHANGED << sc, cfg, conns, ms, div >>
         [] e.e = "wr" ->
              /\ LET on0 == ObsWr(e)
@@ -233,6 +250,7 @@ Next ==
              /\ o' = [o EXCEPT !.bad = @ \cup {"C14"}] /\ PrintT(<< "PV", {"C14"}, sc, l, "panic" >>)
              /\ UNCHANGED << sc, cfg, conns, ms, div >>
         [] e.e = "end" ->
+             /\ (IF o.acctpend /\ ~o.noisy THEN PrintT(<< "PV", {"C12"}, sc, l, "norecord" >>) ELSE TRUE)
              /\ LET new == IF o.noisy /\ ~o.overlap THEN {} ELSE IsoTags IN o' = [o EXCEPT !.bad = @ \cup new] /\ Report(new \ o.bad, e)
              /\ UNCHANGED << sc, cfg, conns, ms, div >>
         [] OTHER -> UNCHANGED << sc, cfg, conns, ms, div, o >>
